@@ -67,6 +67,7 @@ type Ctx struct {
 	property   string                    // the property being checked (some property-derived obligations are raised only under their property)
 	heapTyp    map[string]types.Type     // field heap key -> Go type of the field (where known)
 	sweep      bool                      // zero-annotation sweep: uncontracted callees with loops are havoc
+	statPath   map[string]string         // FileInfo value returned by os.Stat -> the path it describes
 	skipProp   func(props []string) bool // ensures clauses of other properties are not checked in this run
 }
 
@@ -2803,6 +2804,13 @@ func (fr *Frame) call(st *State, x *ssa.Call) bool {
 		return true
 	}
 	callee := x.Call.StaticCallee()
+	if callee == nil && x.Call.IsInvoke() && x.Call.Method != nil && x.Call.Method.Name() == "Size" {
+		// info.Size() of the FileInfo that os.Stat(p) returned: the length of the file's text in the ghost file system
+		if p, ok := c.statPath[fr.val(x.Call.Value).T]; ok {
+			setRes(Val{fmt.Sprintf("(slen (fsread %s))", p), x.Type()})
+			return true
+		}
+	}
 	if callee == nil {
 		c.note("%s: dynamic call abstracted", fr.fname)
 		setRes(fr.opaqueResults(st, "dyn", x.Type())...)
@@ -3091,6 +3099,16 @@ func (fr *Frame) call(st *State, x *ssa.Call) bool {
 			}
 			return true
 		}
+	case "os.Stat":
+		// follows symbolic links: the FileInfo describes the file whose text os.ReadFile(p) returns
+		vs := fr.opaqueResults(st, "stat", x.Type())
+		if c.statPath == nil {
+			c.statPath = map[string]string{}
+		}
+		c.statPath[vs[0].T] = fr.val(x.Call.Args[0]).T
+		c.note("%s: os.Stat(p).Size() is the length of fsread(p) (ghost file system)", fr.fname)
+		setRes(vs...)
+		return true
 	case "fmt.Errorf", "errors.New":
 		// a freshly made error is not nil (its text is opaque)
 		c.sortOf(x.Type())
